@@ -37,6 +37,10 @@
 (* classes (rejvals) and size mismatches (samesize) on which a call is DOCUMENTED to  *)
 (* raise; they are explored on purpose, also with large arguments: a rejected call   *)
 (* is a stutter step on every argument, exactly like a call that returns.            *)
+(* Option space: the keyword options of an entry point are independent axes          *)
+(* (FrOptAxes); besides the named single settings (opts) every vector of a strength-2 *)
+(* covering design over the axes is an option "ax:v1,v2,.." (axopts), explored in the  *)
+(* base layout of every parameter and in one layout that forces a conversion.         *)
 EXTENDS VU
 
 FrOrders  == {"native", "swapped"}
@@ -160,6 +164,14 @@ FrOptAxes(name) ==
              <<FrAx("bins", <<"binsize", "nbin", "nperbin">>), FrAx("range", <<"data", "minmax">>), FrOnOff("rev"), FrOnOff("more")>>
       [] name \in FrCosmoTwo       -> <<FrAx("form", <<"aa", "as", "sa">>), FrAx("curv", <<"flat", "curved">>)>>
       [] name = "HTM.match"        -> <<FrAx("maxmatch", <<"1", "0", "2">>), FrOnOff("file"), FrAx("radius", <<"array", "scalar">>)>>
+      [] name \in {"sfile.write", "io.write"} -> <<FrAx("delim", <<"binary", "csv", "tab", "space">>), FrOnOff("header"), FrOnOff("append")>>
+      [] name = "recfile.write"    -> <<FrAx("delim", <<"binary", "csv", "tab", "space">>), FrOnOff("append")>>
+      [] name = "Recfile.write"    -> <<FrAx("delim", <<"binary", "csv", "tab", "space">>), FrOnOff("bracket"), FrOnOff("padnull"), FrOnOff("ignorenull")>>
+      [] name = "SFile.write"      -> <<FrAx("delim", <<"binary", "csv", "tab">>), FrAx("mode", <<"w", "rplus">>), FrOnOff("twice")>>
+      [] name = "stat.histogram2d" -> <<FrAx("bins", <<"nx_ny", "xbin_ybin">>), FrOnOff("rev"), FrOnOff("more")>>
+      [] name = "numpy_util.extract_fields" -> <<FrAx("names", <<"one", "two", "sub_array_field">>), FrAx("strict", <<"on", "off">>)>>
+      [] name = "HTM.bincount"     -> <<FrAx("scale", <<"none", "scalar">>), FrAx("getbins", <<"on", "off">>)>>
+      [] name = "Matcher.match"    -> <<FrAx("maxmatch", <<"1", "0", "2">>), FrOnOff("file")>>
       [] OTHER -> <<>>
 FrAxOff(ax, v) == Cardinality({i \in DOMAIN ax : v[i] # ax[i].vals[1]})
 FrAxVectors(ax) ==
@@ -458,7 +470,9 @@ FrFrameFailing(c, pre, post) ==
 \*   FixedWrap = TRUE  : ... into a copy made at entry.
 \*   Whether there is anything to wrap depends on the VALUES: the differences of the harness (role "dlon",
 \*   -360..360) contain one outside [-180, 180] in every class except "all equal" (10.5) and "empty".
-FrNeedsNative(c, opt, l) == c.path = "view_native" /\ opt \in c.text /\ l.order = "swapped"
+\* text output: a named text option, or an option vector of a record-file writer whose first axis (the delimiter) is not "binary"
+FrIsText(c, opt) == opt \in c.text \/ (opt \in c.axopts /\ c.fam = "recfile" /\ FrAxVec(c, opt)[1] # "binary")
+FrNeedsNative(c, opt, l) == c.path = "view_native" /\ FrIsText(c, opt) /\ l.order = "swapped"
 FrNeedsWrap(c, v) == c.path = "wrap" /\ v \notin {"equal", "empty"}
 \*   path "copy" with option axes (coords.eq2xyz: units x stomp): the callee converts units in place under the
 \*   default of its first axis and applies another in-place step under a non-default value of its second axis
